@@ -1644,7 +1644,8 @@ package otto
 //@   nosafety
 //@   requires call.runtime != nil
 //@   calls dateObjectOf(_, _) as d
-//@   ensures d.isNaN ==> result.kind == valueString && is(result.value, string) && result.value.(string) == "Invalid Date"
+//@   at_call (*runtime).panicRangeError : called(d) && d.isNaN
+//@   ensures called(d) && !d.isNaN && result.kind == valueString
 
 //@ func builtinDateToGMTString
 //@   props C12
@@ -2218,6 +2219,8 @@ package otto
 //@   nosafety
 //@   requires call.runtime != nil && argsOK(call.ArgumentList)
 //@   requires forall i int :: 0 <= i && i < len(call.ArgumentList) ==> jsValue(call.ArgumentList[i]) && call.ArgumentList[i].kind != valueObject
+//@   at_call builtinDateReviveForSetYear : arg0 == call && arg1 == true
+//@   calls builtinDateReviveForSetYear(_, _)
 //@   at_call builtinDateBeforeSet : arg1 == 3 && arg2 == true
 //@   at_call (*ecmaTime).goTime : arg0 == ecmaTime && arg0.minute == value[0] && (len(value) > 1 ==> arg0.second == value[1]) && (len(value) > 2 ==> arg0.millisecond == value[2])
 //@   calls (*ecmaTime).goTime(_) whenret !nanValue(result)
@@ -2226,6 +2229,8 @@ package otto
 //@   nosafety
 //@   requires call.runtime != nil && argsOK(call.ArgumentList)
 //@   requires forall i int :: 0 <= i && i < len(call.ArgumentList) ==> jsValue(call.ArgumentList[i]) && call.ArgumentList[i].kind != valueObject
+//@   at_call builtinDateReviveForSetYear : arg0 == call && arg1 == false
+//@   calls builtinDateReviveForSetYear(_, _)
 //@   at_call builtinDateBeforeSet : arg1 == 3 && arg2 == false
 //@   at_call (*ecmaTime).goTime : arg0 == ecmaTime && arg0.minute == value[0] && (len(value) > 1 ==> arg0.second == value[1]) && (len(value) > 2 ==> arg0.millisecond == value[2])
 //@   calls (*ecmaTime).goTime(_) whenret !nanValue(result)
@@ -2282,6 +2287,8 @@ package otto
 //@   nosafety
 //@   requires call.runtime != nil && argsOK(call.ArgumentList)
 //@   requires forall i int :: 0 <= i && i < len(call.ArgumentList) ==> jsValue(call.ArgumentList[i]) && call.ArgumentList[i].kind != valueObject
+//@   at_call builtinDateReviveForSetYear : arg0 == call && arg1 == true
+//@   calls builtinDateReviveForSetYear(_, _)
 //@   at_call builtinDateBeforeSet : arg1 == 3 && arg2 == true
 //@   at_call (*ecmaTime).goTime : arg0 == ecmaTime && arg0.year == value[0] && (len(value) > 1 ==> arg0.month == value[1]) && (len(value) > 2 ==> arg0.day == value[2])
 //@   calls (*ecmaTime).goTime(_) whenret !nanValue(result)
@@ -2290,6 +2297,8 @@ package otto
 //@   nosafety
 //@   requires call.runtime != nil && argsOK(call.ArgumentList)
 //@   requires forall i int :: 0 <= i && i < len(call.ArgumentList) ==> jsValue(call.ArgumentList[i]) && call.ArgumentList[i].kind != valueObject
+//@   at_call builtinDateReviveForSetYear : arg0 == call && arg1 == false
+//@   calls builtinDateReviveForSetYear(_, _)
 //@   at_call builtinDateBeforeSet : arg1 == 3 && arg2 == false
 //@   at_call (*ecmaTime).goTime : arg0 == ecmaTime && arg0.year == value[0] && (len(value) > 1 ==> arg0.month == value[1]) && (len(value) > 2 ==> arg0.day == value[2])
 //@   calls (*ecmaTime).goTime(_) whenret !nanValue(result)
@@ -3748,3 +3757,15 @@ package otto
 //@   stable call.ArgumentList
 //@   at_call (*object).enumerate : arg0 == obj && !arg1
 //@   at_call (*runtime).panicTypeError : argOf(call, 0).kind != valueObject
+
+// 15.9.5.40/41 step 1: the year setters take +0 for the time value of an invalid date (the
+// instant whose local, resp. UTC, fields are 1970-01-01T00:00:00.000); a valid date is left alone.
+//@ func builtinDateReviveForSetYear
+//@   props C12
+//@   nosafety
+//@   requires call.runtime != nil
+//@   preserves elems(Value), FunctionCall.runtime, FunctionCall.ArgumentList, FunctionCall.This, FunctionCall.eval, FunctionCall.Otto, object.class
+//@   calls dateObjectOf(_, _) as d
+//@   at_call time.Date : called(d) && d.isNaN && arg0 == 1970 && arg1 == 1 && arg2 == 1 && arg3 == 0 && arg4 == 0 && arg5 == 0 && arg6 == 0
+//@   nocall (*dateObject).Set(_, _) when false
+//@   calls (*dateObject).Set(_, _) whenret d.isNaN
